@@ -563,7 +563,10 @@ UserCat == <<
   UC(<<EAC, AT>>, "nonascii"),
   UC(S("%C3%A9@"), "escaped-utf8"),
   UC(S("%e9@"), "escaped-latin1"),
-  UC(<<SUR, AT>>, "surrogate") >>
+  UC(<<SUR, AT>>, "surrogate"),
+  UC(<<COLON, SUR, AT>>, "surrogate"),              \* empty user name, password that no codec encodes
+  UC(S("a:") \o <<SUR, AT>>, "surrogate"),
+  UC(<<COLON, EAC, AT>>, "nonascii") >>             \* empty user name, password outside ascii / latin-1 documents
 
 H(t, k, g) == [t |-> t, k |-> k, g |-> g]           \* g: hosts with the same g > 0 are notations of one address
 HostCat == <<
